@@ -100,6 +100,11 @@ def mutate(rnd, raw):
             return kind, s
         if kind == "default-type" and fields:
             p, f = rnd.choice(fields)
+            # half of the time a field whose type is a union with a by-name branch (the check has to look the name up)
+            byname = [(p_, f_) for p_, f_ in fields if isinstance(f_.get("type"), list)
+                      and any(isinstance(b, str) and b not in gen.PRIMS for b in f_["type"])]
+            if byname and rnd.random() < 0.5:
+                p, f = rnd.choice(byname)
             bad = wrong_default(rnd, f["type"], s, p)
             if bad is NOGOOD:
                 continue
